@@ -146,6 +146,11 @@ def gen_ops(tier, rng):
         for i in range(d + p):
             for out in [1, d * 50 - 1, d * 50]:
                 ops.append((f"guard sjoin {d} {p} 50 {out} {d+p} nilr:{i} {rng.randrange(1, 1<<30)}", {"cat": "stream-join-nil"}))
+    # stream Split with every number of writers 0 .. TotalShards+1 (exactly DataShards is the contract)
+    for (d, p) in [(2, 1), (3, 2), (4, 2), (1, 0)]:
+        for nw in range(0, d + p + 2):
+            for size in [1, 100, 251]:
+                ops.append((f"guard ssplit {d} {p} {size} {size} - {rng.randrange(1, 1<<30)} {nw}", {"cat": "stream-split-writers"}))
     # ReconstructSome, exhaustive over small shapes: every present/missing pattern x every `required` mask of EVERY length
     # 0 .. total+1 (also the lengths strictly between DataShards and TotalShards) x every bit pattern
     for (fam, d, p, sz) in [("default", 2, 3, "10"), ("leo8", 2, 2, "64")] + ([("default", 3, 2, "10"), ("leo16", 2, 2, "64")] if tier == "thorough" else []):
